@@ -91,6 +91,11 @@ theorem start_cycle_step_order :
     Gen.Site.startCycle = ["connect", "reset", "_receive_data", "_dequeue_messages", "_connection_keeper", "_end_task", "_end_task", "close", "next_delay", "_end_task"] := by
   decide
 
+/-- TIE TO THE SOURCE (regenerated on every run, Gen/Site.lean): the keep-alive probe is sent as a task of its own before the answer is awaited with the time-out: a peer that neither answers nor reads is given up after socket_timeout and the cycle ends (what the session outcome `session c d g` with a keeper time-out stands for) -/
+theorem keeper_step_order :
+    Gen.Site.keeper = ["create_task", "create_task", "EnquireLink", "_send_data", "create_task", "wait_for", "clear", "raise"] := by
+  decide
+
 end SmppVerif.Props.C07
 
 #print axioms SmppVerif.Props.C07.runs_until_stopped
@@ -101,3 +106,4 @@ end SmppVerif.Props.C07
 #print axioms SmppVerif.Props.C07.stop_bounded
 #print axioms SmppVerif.Props.C07.start_cycle_step_order
 #print axioms SmppVerif.Props.C07.connections_closed
+#print axioms SmppVerif.Props.C07.keeper_step_order
